@@ -42,6 +42,8 @@ var c11Scripts = []struct {
 	// the loop runs when somebody asks the thrown value for its text
 	{"throw-looping-tostring", `_.props.tick(); throw {toString: function() { for (;;) { _.props.tick(); } }};`, true},
 	{"getter-loop", `_.props.tick(); return {get a() { for (;;) { _.props.tick(); } }};`, true},
+	// both: reading the returned object throws a value whose text never comes
+	{"getter-throws-looping-tostring", `_.props.tick(); return {get a() { throw {toString: function() { for (;;) { _.props.tick(); } }}; }};`, true},
 	// executions that end by an ordinary failure must not leave anything behind either
 	{"throws", `_.props.tick(); throw new Error("boom");`, false},
 	{"reference-error", `_.props.tick(); return {"x": undefinedVariable + 1};`, false},
